@@ -33,7 +33,7 @@ func TestC44_ChainMaps(t *testing.T) {
 	vkit.For("C44").SetRule("generated concurrent programs: 2..4 goroutines x 1..6 operations (plus 0..4 sequential set-up operations) over one shared object, each program repeated on fresh objects; objects: (a) one round.Round, (b) one block.Block, (c) miner ValidateTransactions over multi-batch blocks, (d) one chain.Chain's block/round maps; operations are the calls real miner/sharder workers and handlers make; oracle: race detector silent (GORACE halt_on_error), every program finishes (watchdog), quiescent-state invariants; non-trivial = a program with two goroutines whose operations touch a common part of the object with at least one writer; distinct by (object, set of conflicting operation pairs)")
 	const (
 		nMiners  = 4
-		nRounds  = 4
+		nRounds  = 5
 		perRound = 2
 	)
 	var (
@@ -83,7 +83,11 @@ func TestC44_ChainMaps(t *testing.T) {
 		g := &block.Block{}
 		g.Hash = vHash(1000)
 		g.SetStateStatus(block.StateSuccessful)
-		c.LatestFinalizedBlock = g
+		lfb := &block.Block{} // the latest finalized block is ahead of the deterministic one
+		lfb.Round = nRounds - 1
+		lfb.Hash = vHash(1001)
+		lfb.SetStateStatus(block.StateSuccessful)
+		c.LatestFinalizedBlock = lfb
 		c.LatestDeterministicBlock = g
 		c.blocks[g.Hash] = g
 		for gi := range copies {
@@ -111,13 +115,19 @@ func TestC44_ChainMaps(t *testing.T) {
 		for i := 0; i < 4; i++ {
 			far = append(far, round.NewRound(int64(40+i)))
 		}
+		// the node has been running: the k=0 branch of rounds 1..nRounds-1 is already cached (objects nobody
+		// else holds), which makes its round-1 block deterministically final (3 of 4 miners extend it)
+		for rn := 1; rn < nRounds; rn++ {
+			b := *copies[c44kit.Prelude][(rn-1)*perRound]
+			c.AddBlock(&b)
+		}
 	}
 	blockW := []string{"blocks", "ldb", "block.prev", "block.ext", "block.tickets", "block.state"}
 	ops := []c44kit.Op{
 		// miner BlockVerifyWorkers / generateRoundBlock (miner/protocol_round.go addToRoundVerification)
-		{Name: "AddBlock", W: blockW, Weight: 4, Fn: func(g, a int) { c.AddBlock(own(g, a)) }},
+		{Name: "AddBlock", Role: "miner", W: blockW, Weight: 4, Fn: func(g, a int) { c.AddBlock(own(g, a)) }},
 		// per-message goroutines (handleNotarizedBlockMessage), CollectBlocksForVerification
-		{Name: "AddRoundBlock", W: append([]string{"rounds", "block.rank"}, blockW...), R: []string{"round.perm"}, Weight: 2, Fn: func(g, a int) {
+		{Name: "AddRoundBlock", Role: "miner", W: append([]string{"rounds", "block.rank"}, blockW...), R: []string{"round.perm"}, Weight: 2, Fn: func(g, a int) {
 			b := own(g, a)
 			r := getOrCreateRound(roundNo(a))
 			if !r.IsRanksComputed() {
@@ -155,20 +165,11 @@ func TestC44_ChainMaps(t *testing.T) {
 			b.Round = int64(50 + a%4)
 			c.PruneChain(ctx, b)
 		}},
-		// finalizeBlock: walk to the latest deterministic block (chaincore/chain/protocol_block.go:545)
-		{Name: "finalizeBlock:deterministicWalk", R: []string{"ldb", "block.prev", "block.ext", "lfb"}, W: []string{"ldb"}, Weight: 3, Fn: func(g, a int) {
-			fb := published(a)
-			for pfb := fb; pfb != nil && pfb != c.LatestDeterministicBlock; pfb = pfb.PrevBlock {
-				if c.IsFinalizedDeterministically(pfb) {
-					c.SetLatestDeterministicBlock(pfb)
-					break
-				}
+		// finalizeBlock (chaincore/chain/protocol_block.go:545-547), FinalizedBlockWorker goroutine, no chain lock held
+		{Name: "SetLatestDeterministicBlock", R: []string{"block.ext", "lfb", "blocks"}, W: []string{"ldb"}, Weight: 3, Fn: func(g, a int) {
+			if pfb := published(a); pfb != nil && c.IsFinalizedDeterministically(pfb) {
+				c.SetLatestDeterministicBlock(pfb)
 			}
-		}},
-		// diagnostics handlers (chaincore/chain/handler.go:455, json_handler.go:283)
-		{Name: "handler:DeterministicFinalizedRound", R: []string{"ldb", "lfb"}, Fn: func(g, a int) {
-			_ = c.GetLatestFinalizedBlock().Round
-			_ = c.LatestDeterministicBlock.Round
 		}},
 		{Name: "AddRound", W: []string{"rounds"}, Weight: 2, Fn: func(g, a int) {
 			if a < 4 {
@@ -179,7 +180,7 @@ func TestC44_ChainMaps(t *testing.T) {
 		}},
 		{Name: "GetRound", R: []string{"rounds"}, Weight: 2, Fn: func(g, a int) { _ = c.GetRound(roundNo(a)) }},
 		// sharder UpdateFinalizedBlock (sharder/protocol_block.go:43): clone of the round that was just finalized with its block
-		{Name: "finalize+GetRoundClone", R: []string{"rounds", "round.notarized", "round.seed", "round.perm", "round.block"}, W: []string{"round.block"}, Weight: 2, Fn: func(g, a int) {
+		{Name: "finalize+GetRoundClone", Role: "sharder", R: []string{"rounds", "round.notarized", "round.seed", "round.perm", "round.block"}, W: []string{"round.block"}, Weight: 2, Fn: func(g, a int) {
 			b := published(a)
 			if b == nil {
 				return
@@ -192,7 +193,7 @@ func TestC44_ChainMaps(t *testing.T) {
 		{Name: "SetCurrentRound", W: []string{"currentRound"}, Fn: func(g, a int) { c.SetCurrentRound(int64(a)) }},
 		{Name: "GetCurrentRound", R: []string{"currentRound"}, Fn: func(g, a int) { _ = c.GetCurrentRound() }},
 		// per-message goroutines (VRF share handling), BlockWorker
-		{Name: "SetRandomSeed", W: []string{"round.seed", "round.perm"}, R: []string{"rounds", "round.notarized"}, Weight: 2, Fn: func(g, a int) {
+		{Name: "SetRandomSeed", Role: "miner", W: []string{"round.seed", "round.perm"}, R: []string{"rounds", "round.notarized"}, Weight: 2, Fn: func(g, a int) {
 			c.SetRandomSeed(getOrCreateRound(roundNo(a)), int64(200+a))
 		}},
 		{Name: "SetLatestOwnFinalizedBlockRound", W: []string{"lfb"}, Fn: func(g, a int) { c.SetLatestOwnFinalizedBlockRound(int64(a)) }},
@@ -222,4 +223,43 @@ func TestC44_ChainMaps(t *testing.T) {
 
 // open known findings of this part: while listed open in known_findings.json the
 // two operations are never put into different goroutines of one program
-var c44chainKnown = []c44kit.KnownPair{}
+var c44chainKnown = []c44kit.KnownPair{
+	// Chain.SetRoundRank assigns the exported field Block.RoundRank of the cached block on every
+	// AddNotarizedBlockToRound / AddRoundBlock (under the chain's blocksMutex only); Block.Clone reads it
+	{Key: "block-round-rank-plain-field", A: "AddNotarizedBlockToRound", B: "GetBlockClone"},
+	{Key: "block-round-rank-plain-field", A: "AddNotarizedBlockToRound", B: "finalize+GetRoundClone"},
+	{Key: "block-round-rank-plain-field", A: "AddRoundBlock", B: "GetBlockClone"},
+	{Key: "block-round-rank-plain-field", A: "AddRoundBlock", B: "finalize+GetRoundClone"},
+	// Block.PrevBlock is an exported field: GetLocalPreviousBlock (and every other reader) reads it without
+	// the mutex under which SetPreviousBlock / Clear write it
+	{Key: "block-prev-block-plain-field", A: "GetLocalPreviousBlock", B: "AddBlock"},
+	{Key: "block-prev-block-plain-field", A: "GetLocalPreviousBlock", B: "AddRoundBlock"},
+	{Key: "block-prev-block-plain-field", A: "GetLocalPreviousBlock", B: "AddNotarizedBlockToRound"},
+	{Key: "block-prev-block-plain-field", A: "GetLocalPreviousBlock", B: "finalizeBlock:deleteDeadBlocks"},
+	{Key: "block-prev-block-plain-field", A: "GetLocalPreviousBlock", B: "PruneChain"},
+	// Block.Clone (GetBlockClone, Round.Clone via GetRoundClone) vs ticket merge / state adoption / Clear of the cached block
+	{Key: "block-clone-unguarded-fields", A: "GetBlockClone", B: "AddBlock"},
+	{Key: "block-clone-unguarded-fields", A: "GetBlockClone", B: "AddRoundBlock"},
+	{Key: "block-clone-unguarded-fields", A: "GetBlockClone", B: "AddNotarizedBlockToRound"},
+	{Key: "block-clone-unguarded-fields", A: "GetBlockClone", B: "MergeVerificationTickets"},
+	{Key: "block-clone-unguarded-fields", A: "GetBlockClone", B: "finalizeBlock:deleteDeadBlocks"},
+	{Key: "block-clone-unguarded-fields", A: "GetBlockClone", B: "PruneChain"},
+	{Key: "block-clone-unguarded-fields", A: "finalize+GetRoundClone", B: "AddBlock"},
+	{Key: "block-clone-unguarded-fields", A: "finalize+GetRoundClone", B: "AddRoundBlock"},
+	{Key: "block-clone-unguarded-fields", A: "finalize+GetRoundClone", B: "AddNotarizedBlockToRound"},
+	{Key: "block-clone-unguarded-fields", A: "finalize+GetRoundClone", B: "MergeVerificationTickets"},
+	{Key: "block-clone-unguarded-fields", A: "finalize+GetRoundClone", B: "finalizeBlock:deleteDeadBlocks"},
+	{Key: "block-clone-unguarded-fields", A: "finalize+GetRoundClone", B: "PruneChain"},
+	// Chain.LatestDeterministicBlock: finalizeBlock sets it with no lock, addBlock reads and sets it under blocksMutex
+	{Key: "chain-latest-deterministic-block-unlocked", A: "SetLatestDeterministicBlock", B: "SetLatestDeterministicBlock"},
+	{Key: "chain-latest-deterministic-block-unlocked", A: "SetLatestDeterministicBlock", B: "AddBlock"},
+	{Key: "chain-latest-deterministic-block-unlocked", A: "SetLatestDeterministicBlock", B: "AddRoundBlock"},
+	{Key: "chain-latest-deterministic-block-unlocked", A: "SetLatestDeterministicBlock", B: "AddNotarizedBlockToRound"},
+	{Key: "chain-latest-deterministic-block-unlocked", A: "SetLatestDeterministicBlock", B: "PruneChain"},
+	// Chain.SetRandomSeed and AddNotarizedBlockToRound call Round.GetNotarizedBlocks (no round lock)
+	{Key: "round-notarized-blocks-read-without-lock", A: "SetRandomSeed", B: "AddNotarizedBlockToRound"},
+	{Key: "round-notarized-blocks-read-without-lock", A: "AddRoundBlock", B: "AddNotarizedBlockToRound"},
+	{Key: "round-notarized-blocks-read-without-lock", A: "AddNotarizedBlockToRound", B: "AddNotarizedBlockToRound"},
+	// Round.Clone (GetRoundClone) vs SetTimeoutCount / SetRandomSeedForNotarizedBlock inside AddNotarizedBlockToRound
+	{Key: "round-clone-unguarded-fields", A: "finalize+GetRoundClone", B: "AddNotarizedBlockToRound"},
+}
